@@ -195,7 +195,7 @@ var props = map[string]*propCfg{
 	},
 	"C11": {
 		ID: "C11", Level: "model_checking", Exhaustive: true,
-		Rule:        "Markers.tla models what a query writes into the caller's document (the <- back-reference per row with nesting, CTE entries, the EXISTS row extension) with a failure possible at every step; TLC checks DocRestored on all behaviours (3 rows, nesting depth 3) and, as a non-vacuity audit, that each of the four repaired deviations of the pinned tree violates it or RowsUntouched. Binding: every case of the fault-shape module MC_C19 (26 shapes with the fault-injecting function in every clause position x tables) is run fault-free and with the k-th invocation failing for every k, plain and Wrapped, and reduced configurations of the families of C01 (filters, IN subquery), C03 (GROUP BY), C05 (ORDER BY / LIMIT), C06 (DISTINCT / UNION), C07 (CTEs, derived tables, subqueries, EXISTS) and C08 (multi-dimensional FROM) are run plain and Wrapped; after every New + Exec - successful or failed, and after a follow-up statement - the caller's document is compared with a deep copy taken before (cycle-safe: no added / removed key at any depth, no changed array element). Non-trivial: the query contains a subquery, EXISTS, CTE, derived table, join, ORDER BY, aggregate or an injected fault; distinct = distinct (document, query).",
+		Rule:        "Markers.tla models what a query writes into the caller's document (the <- back-reference per row with nesting, CTE entries, the EXISTS row extension) with a failure possible at every step; TLC checks DocRestored on all behaviours (3 rows, nesting depth 3) and, as a non-vacuity audit, that each of the four repaired deviations of the pinned tree violates it or RowsUntouched. Binding: every case of the fault-shape module MC_C19 (26 shapes with the fault-injecting function in every clause position x tables) is run fault-free and with the k-th invocation failing for every k, plain and Wrapped, and reduced configurations of the families of C01 (filters, IN subquery), C03 (GROUP BY), C05 (ORDER BY / LIMIT), C06 (DISTINCT / UNION), C07 (CTEs, derived tables, subqueries, EXISTS) and C08 (multi-dimensional FROM) are run plain and Wrapped; after every New + Exec - successful or failed, and after a follow-up statement - the caller's document is compared with a deep copy taken before (cycle-safe: no added / removed key at any depth, no changed array element). Non-trivial: the query contains a subquery, EXISTS, CTE, derived table, join, ORDER BY, aggregate or an injected fault; distinct = distinct (document, query). A driver runs 38 statement texts the query AST does not cover (FUSE, DEFAULTKEY, GROUP BY on nested paths, aliased dual, selectors with ranges / pipes / keep / mix in FROM, INTO and USING joins, outer joins over unaliased tables, UNION with ORDER BY, ASYNC / ONCE calls ...) on one rich document, as built, as decoded by encoding/json and with a second Exec of the same Query, and compares the document afterwards: the invariant needs no model of their results.",
 		Assumptions: baseAssumptions,
 		Quick: []legCfg{
 			{Kind: "mc", Name: "markers", Module: "Markers", Cfg: "Markers_ok.cfg", Timeout: 5 * time.Minute, TLCWorkers: 4, NoExport: true},
@@ -210,6 +210,7 @@ var props = map[string]*propCfg{
 			mc("order", "MC_C05", "C11_C05.cfg", 10*time.Minute),
 			mc("distinct", "MC_C06", "C11_C06.cfg", 10*time.Minute),
 			mc("nested", "MC_C08", "C11_C08.cfg", 10*time.Minute),
+			{Kind: "exec", Name: "texts", Mode: "texts", Timeout: 5 * time.Minute},
 		},
 	},
 	"C12": {
